@@ -307,7 +307,7 @@ def check(run, replay=None):
     if not os.environ.get("VERIF_ASAN_RERUN"):
         from .. import sched_kernels
         sched_kernels.attach(run, ["score_and_assign"], 24 if run.tier == "quick" else 240,
-                             [[1, 0], [2, 1], [4, 1], [7, 1], [64, 1]], "score_and_assign")
+                             [[1, 0], [2, 4], [4, 1], [7, 4], [64, 1]], "score_and_assign")
         run.require_counter("sched_determinism_comparisons", 20)
     run.extra["schedule_control"] = "real libgomp stress + controlled scheduler (vrt.c) for score_and_assign"
     run.require_counter("labels_judged", 10000)
